@@ -69,6 +69,9 @@ def _seconds(x):
 GHOST_FIELDS = {
     ("SubmitterParams", "wall_time_s"): lambda p: int(p.get_wall_time().total_seconds()),
     ("GenericCommandParameters", "blocked_by"): lambda j: j.get_blocking_jobs(),
+    # ghost list view of a configuration's jobs (insertion order of JobContainerByName._jobs)
+    ("GenericCommandConfiguration", "g_joblist"): lambda c: list(c.iter_jobs()),
+    ("JobConfiguration", "g_joblist"): lambda c: list(c.iter_jobs()),
 }
 
 
@@ -592,6 +595,9 @@ class NEval:
 
     def fn_prefix(self, node):
         return list(self.ev(node.args[0]))[:self.ev(node.args[1])]
+
+    def fn_fresh(self, node):
+        raise SkipClause("fresh")
 
     def fn_allocated(self, node):
         raise SkipClause("allocated")
